@@ -5,7 +5,7 @@
     four predefined entities the escapers emit), plus the WHATWG HTML comment states.
     Bytes are [N]; documents are [list N]. *)
 From Coq Require Import List NArith Bool.
-From TwLib Require Import PyStr.
+From TwLib Require Import PyStr CodecsText.
 From C28 Require Import Gen.
 Import ListNotations.
 Local Open Scope N_scope.
@@ -300,3 +300,61 @@ Fixpoint contains (p s : list N) : bool :=
     own "-->": not starting with ">" or "->", not containing "--!>" *)
 Definition html5_guard (s : list N) : bool :=
   negb (starts_with [62] s) && negb (starts_with [45; 62] s) && negb (contains [45; 45; 33; 62] s).
+
+(** ------------------------------------------------------------------ source trees: str and bytes
+    A text / CDATA / comment / attribute-value leaf is given as bytes, or as a str (code points) that
+    every escaper first encodes with [data.encode("utf-8")] -- strict: a str holding a lone surrogate
+    (U+D800..U+DFFF, e.g. from os.fsdecode / surrogateescape) raises UnicodeEncodeError and
+    flattenString fails: there is NO document.  [encode_tree] is that step; [flatten_source] the whole. *)
+Inductive stext := TBytes (b : list N) | TStr (cps : list N).
+
+Definition is_surrogate (c : N) : bool := (55296 <=? c) && (c <? 57344).
+
+Definition encode_text (t : stext) : option (list N) :=
+  match t with
+  | TBytes b => Some b
+  | TStr cps => if existsb is_surrogate cps then None else Some (utf8_str cps)
+  end.
+
+Inductive snode :=
+| SText (s : stext)
+| SCData (s : stext)
+| SComment (s : stext)
+| STag (name : list N) (attrs : list (list N * snode)) (children : list snode)
+| SSeq (l : list snode).
+
+Definition mapM {A B : Type} (f : A -> option B) : list A -> option (list B) :=
+  fix go (l : list A) : option (list B) :=
+    match l with
+    | [] => Some []
+    | x :: r => match f x, go r with
+                | Some y, Some ys => Some (y :: ys)
+                | _, _ => None
+                end
+    end.
+
+Fixpoint encode_tree (t : snode) : option node :=
+  match t with
+  | SText s => option_map NText (encode_text s)
+  | SCData s => option_map NCData (encode_text s)
+  | SComment s => option_map NComment (encode_text s)
+  | STag name attrs ch =>
+      match mapM (fun kv => option_map (pair (fst kv)) (encode_tree (snd kv))) attrs, mapM encode_tree ch with
+      | Some a, Some c => Some (NTag name a c)
+      | _, _ => None
+      end
+  | SSeq l => option_map NSeq (mapM encode_tree l)
+  end.
+
+Definition flatten_source (t : snode) : option (list N) := option_map (flatten false) (encode_tree t).
+
+Definition text_unencodable (s : stext) : bool :=
+  match s with TBytes _ => false | TStr cps => existsb is_surrogate cps end.
+
+(** some str anywhere in the tree (content, CDATA, comment, attribute value) holds a lone surrogate *)
+Fixpoint has_unencodable (t : snode) : bool :=
+  match t with
+  | SText s | SCData s | SComment s => text_unencodable s
+  | STag _ attrs ch => existsb (fun kv => has_unencodable (snd kv)) attrs || existsb has_unencodable ch
+  | SSeq l => existsb has_unencodable l
+  end.
